@@ -76,6 +76,11 @@ META = {
         text="C13_noop, C13_served, C13_fail_clean are proved for every source outcome, header list and commit outcome; C13_tie (T-fact) pins the compare-before-Commit structure and the use of nilfs. The mirror stream checks that the target alone serves the identical fileset, that a second mirror is a no-op without sources, that sources are untouched and failures leave the target clean; the kvfs stream injects faults into the copy.",
         note="Trusted: Lean kernel; codec hypothesis; C08 for the atomicity of the commit itself.",
     ),
+    "C14": dict(
+        technique="Lean 4 theorems on the ordering / mount-rule model (permutation invariance, segment-wise containment) + differential correspondence and real-mount assembly tests",
+        text="C14_perm: for distinct paths every listing order yields the same processing order and verdict (sort uniqueness); C14_mount_refuses: any input at or below a mount input's path is refused wherever it sits; C14_segments / C14_old_counter / C14_under_le_old: the containment test is on whole segments (the pre-fix string prefix was not); C14_ties (T-fact). The real assembler is exercised with wares containing links and with host mounts in several listing orders, with an independent walk of the result and snapshots of everything outside the root.",
+        note="Trusted: Lean kernel; kernel mount semantics; the composition of placements (shadowing) is correspondence-tested, not proved (partial). Known finding: asm-shadow-type-mismatch.",
+    ),
     "C15": dict(
         technique="Lean 4 theorems on the model of Assembler.Run / Teardown for any number of inputs + exhaustive differential correspondence with injected failures",
         text="C15_order, C15_no_delete_after_failure, C15_all_ok (teardown: newest first; after the first failure recursive-delete janitors are skipped, unmount-style ones still attempted, first failure reported), C15_rollback (first failing parent/placement step of any assembly tears down exactly the earlier placements), C15_unpack_failure_places_nothing, for lists of any length; C15_ties pins AlwaysTry of the real janitors and the rollback call sites (T-fact). The model is compared with the real code on every configuration up to n = 3/4.",
